@@ -492,6 +492,12 @@ func seedDocs() [][]byte {
 	add(`{"signed":{"_type":"layout","steps":[{"_type":"step","pubkeys":["ＡＢ１２"],"expected_command":[],"threshold":1,"name":"s","expected_materials":[],"expected_products":[]}],"inspect":[],"keys":{},"expires":"2030-01-02T03:04:05Z","readme":""},"signatures":[]}`)
 	// one layout: a rule and a malformed one with the same blank-joined text
 	add(`{"signed":{"_type":"layout","steps":[{"_type":"step","pubkeys":[],"expected_command":[],"threshold":1,"name":"s","expected_materials":[["CREATE","rel notes.txt"],["MATCH","a b","WITH","PRODUCTS","FROM","s"]],"expected_products":[["CREATE","rel","notes.txt"]]}],"inspect":[{"_type":"inspection","run":[],"name":"i","expected_materials":[["MATCH","a","b","WITH","PRODUCTS","FROM","s"]],"expected_products":[]}],"keys":{},"expires":"2030-01-02T03:04:05Z","readme":""},"signatures":[]}`)
+	// schemes that contain / start with / end with a genuine scheme of the key type
+	for _, ks := range [][2]string{{"ecdsa", "ecdsa-sha2-nistp2567"}, {"ecdsa", "xecdsa-sha2-nistp256x"}, {"ecdsa", "none+ecdsa-sha2-nistp521"},
+		{"ecdsa", "ecdsa-sha2-nistp224-with-sha1"}, {"rsa", "rsassa-pss-sha256x"}, {"rsa", "xrsassa-pss-sha256"}, {"ed25519", "ed25519 "}, {"ed25519", "xed25519"}} {
+		add(`{"signed":{"_type":"layout","steps":[],"inspect":[],"keys":{"ab":{"keyid":"ab","keyid_hash_algorithms":null,"keytype":"` + ks[0] +
+			`","keyval":{"public":"00ff"},"scheme":"` + ks[1] + `"}},"expires":"2030-01-02T03:04:05Z","readme":""},"signatures":[]}`)
+	}
 	key := func(id, priv string) string {
 		return `"` + id + `":{"keyid":"` + id + `","keyid_hash_algorithms":["sha256"],"keytype":"ed25519","keyval":{"private":"` + priv + `","public":"00ff"},"scheme":"ed25519"}`
 	}
